@@ -178,6 +178,46 @@ def check_potential(ctx, meshname, grid, family, name, k, sspec, order):
                     scale=float(np.max(np.abs(ref))) * n)
 
 
+def check_cache_histories(ctx, quick):
+    """E2 over assembly histories without clear_fmm_cache(): FMM interfaces are cached per (grids, mode, wavenumber, order, fmm settings).
+    Operators between two grid objects A, B (a translated copy with the same element count, so that a wrongly shared interface gives
+    numbers instead of a shape error) are assembled in every order; each must equal its dense counterpart whatever was assembled before."""
+    import itertools
+
+    import bempp_cl.api as bem
+
+    mA = meshes.get("tet", ctx.seed)
+    mB = meshes.transform(meshes.get("tet", ctx.seed), t=(2.9, 0.3, -0.4))
+    mC = meshes.transform(meshes.get("octa", ctx.seed), t=(-3.2, 0.5, 0.2))
+    depth = 2 if quick else 3
+    fams = [("laplace", "single_layer", None)] if quick else [("laplace", "single_layer", None), ("helmholtz", "double_layer", 0.9 + 0.2j)]
+    for family, opn, k in fams:
+        grids = {"A": SP.make_grid(mA), "B": SP.make_grid(mB), "C": SP.make_grid(mC)}
+        spaces = {g: SP.make_space(grids[g], {"kind": "DP0"}) for g in grids}
+        set_global(3, 4)
+        dense = {}
+        for d, t in itertools.product("ABC", repeat=2):
+            dense[(d, t)] = ops.dense(ops.boundary(family, opn, spaces[d], spaces[d], spaces[t], k=k, assembler="dense"))
+        events = [("A", "A"), ("A", "B"), ("B", "A"), ("B", "B"), ("A", "C"), ("C", "A")]
+        for hist in itertools.chain.from_iterable(itertools.product(events, repeat=n) for n in range(1, depth + 1)):
+            if len(hist) > 1 and len(set(hist)) == 1:
+                continue
+            bem.clear_fmm_cache()
+            case = {"sub": "fmm-cache-history", "family": family, "operator": opn, "k": k, "history": ["%s<-%s" % (t, d) for d, t in hist]}
+            got = None
+            try:
+                for d, t in hist:
+                    op = ops.boundary(family, opn, spaces[d], spaces[d], spaces[t], k=k, assembler="fmm")
+                    got = matrix_of(op.weak_form(), spaces[d].global_dof_count)
+            except Exception as exc:  # noqa: BLE001
+                ctx.violation("fmm-cache-history/%s/exception:%s" % (family, type(exc).__name__), case, repr(exc))
+                continue
+            ctx.transitions += len(hist)
+            ctx.case(("fmm-history", family, hist), sub="fmm-cache-history", sample=case if len(ctx.samples) < 5 and len(hist) == 2 else None)
+            ctx.check_close("fmm-cache-history/%s/%s" % (family, opn), case, got, dense[hist[-1]], TOL, "fmm-vs-dense(after history)")
+        bem.clear_fmm_cache()
+
+
 def run(ctx):
     install_stub()
     os.chdir(ctx.work)
@@ -235,6 +275,7 @@ def run(ctx):
             check_boundary(ctx, "tet|octa+t", g1, g2, family, name, k, "P1/P1", sp, sp, orders[0], "evaluate")
     for name in ("electric_field", "magnetic_field"):
         check_boundary(ctx, "tet|octa+t", g1, g2, "maxwell", name, 1.3, "RWG/SNC", {"kind": "RWG"}, {"kind": "SNC"}, orders[0], "evaluate")
+    check_cache_histories(ctx, quick)
     if not quick:
         shipped(ctx)
     set_global(4, 4)
@@ -286,6 +327,9 @@ def replay(ctx, case):
     os.chdir(ctx.work)
     if case["sub"] == "shipped":
         shipped(ctx)
+        return
+    if case["sub"] == "fmm-cache-history":
+        check_cache_histories(ctx, False)
         return
     k = case["k"]
     if isinstance(k, dict):
